@@ -108,12 +108,12 @@ func genericHashes() []uint64 {
 // boundaryTargets are mixed values that drive Log2Fixed to the first and last
 // interpolation position of each of the 64 table rows, for every position of
 // the leading one bit that leaves at least lutEntryBits bits below it.
-func boundaryTargets() []uint64 {
+func boundaryTargets(positions []uint) []uint64 {
 	var m []uint64
 	for x := uint64(0); x <= 64; x++ {
 		m = append(m, x)
 	}
-	for p := uint(6); p < 64; p++ {
+	for _, p := range positions {
 		for row := uint64(0); row < 64; row++ {
 			base := uint64(1)<<p | row<<(p-6)
 			m = append(m, base, base|(uint64(1)<<(p-6)-1))
@@ -476,7 +476,12 @@ func runSelector(r *ev.Run) {
 		add(h, false)
 	}
 	nGeneric := len(H)
-	targets := append(boundaryTargets(), generic...)
+	var positions []uint
+	for p := uint(6); p < 64; p++ {
+		positions = append(positions, p)
+	}
+	positions = ev.Pick(r, []uint{6, 7, 8, 15, 16, 17, 31, 32, 33, 47, 48, 49, 56, 57, 58, 61, 62, 63}, positions)
+	targets := append(boundaryTargets(positions), generic...)
 	for _, k := range selKeys {
 		kh := refHashServer(k)
 		for _, m := range targets {
@@ -502,7 +507,7 @@ func runSelector(r *ev.Run) {
 	nTie := len(H) - nGeneric - nPre
 
 	sub := r.NewSub("selector-relations", "venum",
-		fmt.Sprintf("all shard maps over keys {a..e} x weights {1,2,7,2^32-1} with 1..%d shards (every weight assignment), every permutation of each, every single removal, every single addition (key x weight) x hash set H (%d generic: 0,1,2,2^k-1,2^k,2^k+1,2^64-1; %d pre-images unmix(m)^hash(key) for each key and m in {0..64, per leading-bit position 6..63 x 64 table rows x {first,last} interpolation position, generic set}; %d tie hashes found by scanning h<%d for equal scores of two shards)", maxK, nGeneric, nPre, nTie, tieLimit))
+		fmt.Sprintf("all shard maps over keys {a..e} x weights {1,2,7,2^32-1} with 1..%d shards (every weight assignment), every permutation of each, every single removal, every single addition (key x weight) x hash set H (%d generic: 0,1,2,2^k-1,2^k,2^k+1,2^64-1; %d pre-images unmix(m)^hash(key) for each key and m in {0..64, per leading-bit position in %v x 64 table rows x {first,last} interpolation position, generic set}; %d tie hashes found by scanning h<%d for equal scores of two shards)", maxK, nGeneric, nPre, positions, nTie, tieLimit))
 	done := sub.Timer()
 
 	// Build maps.
